@@ -34,6 +34,7 @@ type c08Case struct {
 	// history
 	Prefix []string `json:"prefix,omitempty"`
 	Depth  int      `json:"depth,omitempty"`
+	NoFS   bool     `json:"nofs,omitempty"` // history on an engine made with New() (no file system)
 }
 
 func (c *c08Case) Key() string { return core.KeyOf(c) }
@@ -306,7 +307,10 @@ func refm(tp *c08Tpl) {
 var c08Keys = []string{"k", "j"}
 var c08Config = map[string]string{"k": "cfgK"} // j has no config value
 
-var c08Ops = []string{"fill1", "fill2", "fillS", "assignK", "assignJ", "new", "loadFM", "loadPlain"}
+var c08Ops = []string{"fill1", "fill2", "fillS", "assignK", "assignJ", "new", "loadFM", "loadPlain", "fillNil"}
+
+// c08CurConfig is the config layer of the engine under replay (empty for an engine without file system)
+var c08CurConfig = c08Config
 
 func c08Files() Files {
 	return Files{"theme.yml": "k: cfgT\n", "data/a.yml": "k: cfgK\n", "fm.vuego": "---\nk: fmK\n---\n{{ k }}|{{ j }}", "plain.vuego": "{{ k }}|{{ j }}"}
@@ -326,7 +330,7 @@ func (tp *c08Tpl) visible(key string) map[string]bool {
 	out := map[string]bool{}
 	for v := range tp.vals[key] {
 		if v == "" {
-			out[c08Config[key]] = true
+			out[c08CurConfig[key]] = true
 		} else {
 			out[v] = true
 		}
@@ -351,8 +355,14 @@ func c08Observe(tp *c08Tpl) string {
 }
 
 // c08Replay applies ops ("<target>:<op>") to a fresh engine, checking the model after every step.
-func c08Replay(ctx *core.Ctx, ops []string) (stateKey string, nTpl int, ok bool) {
+func c08Replay(ctx *core.Ctx, ops []string, noFS bool) (stateKey string, nTpl int, ok bool) {
 	base := vuego.NewFS(c08Files().FS())
+	c08CurConfig = c08Config
+	if noFS {
+		// an engine without a file system: no config layer, no files to load
+		base = vuego.New()
+		c08CurConfig = map[string]string{}
+	}
 	tps := []*c08Tpl{{t: base, fm: map[string]string{}, vals: map[string]map[string]bool{"k": {"": true}, "j": {"": true}}, parent: -1}}
 	prev := []string{c08Observe(tps[0])}
 	for step, opS := range ops {
@@ -385,6 +395,12 @@ func c08Replay(ctx *core.Ctx, ops []string) (stateKey string, nTpl int, ok bool)
 			set("k", "fs")
 			soften("j")
 			refm(tp)
+		case "fillNil":
+			// "no request data": mentions no key
+			tp.t.Fill(nil)
+			soften("k")
+			soften("j")
+			refm(tp)
 		case "assignK":
 			tp.t.Assign("k", "a1")
 			set("k", "a1")
@@ -392,7 +408,7 @@ func c08Replay(ctx *core.Ctx, ops []string) (stateKey string, nTpl int, ok bool)
 			tp.t.Assign("j", "b1")
 			set("j", "b1")
 		case "new", "loadFM", "loadPlain":
-			if len(tps) >= 3 {
+			if len(tps) >= 3 || (noFS && op != "new") {
 				return "", 0, false
 			}
 			child := &c08Tpl{fm: map[string]string{}, vals: map[string]map[string]bool{}, parent: ti}
@@ -400,7 +416,7 @@ func c08Replay(ctx *core.Ctx, ops []string) (stateKey string, nTpl int, ok bool)
 				child.vals[key] = map[string]bool{}
 				for v := range tp.visible(key) {
 					// the child starts from a copy of what the parent sees
-					if v == c08Config[key] {
+					if v == c08CurConfig[key] {
 						v = "" // same as config
 					}
 					child.vals[key][v] = true
@@ -502,7 +518,7 @@ func (c *c08Case) runHistory(ctx *core.Ctx) {
 	seen := map[string]bool{}
 	var rec func(ops []string)
 	rec = func(ops []string) {
-		key, n, ok := c08Replay(ctx, ops)
+		key, n, ok := c08Replay(ctx, ops, c.NoFS)
 		if !ok {
 			return
 		}
@@ -538,7 +554,7 @@ func init() {
 		ID:    "C08",
 		Level: "model_checking",
 		Rule: "presence part: all 2^5 subsets of {front-matter, Fill, Assign, data/a.yml, theme.yml} defining the key x Fill/Assign order x Load before/after x Fill datum {map, struct, *struct} x name {JSON tag, Go field} x value type {string,int,list} x read position {{{ }}, v-if ==, :attr, expression, Get} x entry point {Load+Render, RenderFile, RenderString}; " +
-			"history part: explicit-state search over all sequences of {Fill(k), Fill(j only), Fill(struct), Assign(k), Assign(j), New, Load(with fm), Load(plain)} on a tree of <=3 templates, each replayed on a fresh engine; after every step every live template is observed (render + Get) against a layered reference model, and templates other than the target must be unchanged. states = distinct (model, observation) states; non-trivial = all",
+			"history part: explicit-state search over all sequences of {Fill(k), Fill(j only), Fill(struct), Assign(k), Assign(j), New, Load(with fm), Load(plain), Fill(nil)} on a tree of <=3 templates, each replayed on a fresh engine made with NewFS(fs) and - without the Load operations - with New() (no file system, no config layer); after every step every live template is observed (render + Get) against a layered reference model, and templates other than the target must be unchanged. states = distinct (model, observation) states; non-trivial = all",
 		Bounds:      map[string]string{"quick": "history depth <= 4", "thorough": "history depth <= 6"},
 		Assumptions: []string{"a key set by an earlier Assign/Fill and not mentioned by a later Fill may survive or be dropped", "a struct passed to Fill whose field is nil is unconstrained"},
 		Decode:      core.DecodeAs[c08Case](),
@@ -549,6 +565,9 @@ func init() {
 			}
 			for _, o1 := range c08Ops {
 				emit(&c08Case{Part: "history", Prefix: []string{"0:" + o1}, Depth: depth})
+				if o1 != "loadFM" && o1 != "loadPlain" {
+					emit(&c08Case{Part: "history", Prefix: []string{"0:" + o1}, Depth: depth + 1, NoFS: true})
+				}
 			}
 			for mask := 0; mask < 32; mask++ {
 				for _, order := range []string{"FA", "AF"} {
